@@ -574,7 +574,20 @@ def check_fmin_clustering(rep: Rep, pre: str, comp: Competition, label_field: st
         }
         good = []
         for f, val in want.items():
-            hit = [e for e in branch if e.target == comp.field(q, f) and e.value == val and not e.aug]
+            def same_value(e, val=val):
+                v = e.value
+                if v == val:
+                    return True
+                # a copy of a field of the removed node p taken once per removal: it is still current when nothing stores
+                # into that field of p between the copy and its use (stores to q do not alias: p is BLACK, q is not)
+                if not (v[0] == "old" and v[1] == val and w.old_cause.get(v[2], {"?"}) <= {"store"}):
+                    return False
+                copies = [b.seq for b in comp.events if b.kind == "bind" and b.value == val and b.seq < e.seq]
+                if not copies:
+                    return False
+                return not any(s2.kind == "store" and s2.target == val and max(copies) < s2.seq < e.seq for s2 in comp.events)
+
+            hit = [e for e in branch if e.target == comp.field(q, f) and same_value(e) and not e.aug]
             good += hit
             rep.ev(pre + "CLU-" + f, u.event, len(hit) == 1,
                    f"accepted branch must copy {f} from the conqueror p to q",
